@@ -72,7 +72,7 @@ func HarnessC01HandlerStream() {
 // ServerStreamForClient (Connect streaming with end-of-stream envelope, or
 // gRPC with trailers).
 //
-//verif:harness property=C01 stubs=json
+//verif:harness property=C01 stubs=json,wire
 func HarnessC01ClientStream() {
 	msgs := c01Messages()
 	bp := newBufferPool()
